@@ -542,6 +542,226 @@ theorem translated_updateRequest (σ : Env) :
   by_cases h1 : σ "rt.recoveryRequests[partitionID]" = 0 <;> by_cases h2 : σ "len(requests.Requests)" > 0 <;>
   by_cases h3 : σ "request.ToOffset" = σ "toOffset" <;>
   minigo_simp [Trans.updateRequest, h1, h2, h3] <;> (try omega)
+
+/-- `for _, request := range reqs { body }` over a slice of pointers to requests, as Go runs it: the body is executed once
+per element, in order; the element's fields are the variables `request.FromOffset` / `request.ToOffset`, what the body
+leaves in them is the element afterwards; every other variable carries over.  `ok` = no iteration returned, got stuck
+or made a call. -/
+def rangeReqs (body : S) : List Req → Env → List Req × Env × Bool
+  | [], σ => ([], σ, true)
+  | q :: rest, σ =>
+    let r := run body (upd (upd σ "request.FromOffset" q.fromO) "request.ToOffset" q.toO)
+    let k := rangeReqs body rest r.env
+    (⟨r.env "request.FromOffset", r.env "request.ToOffset"⟩ :: k.1, k.2.1, k.2.2 && r.ret.isNone && !r.stuck && r.calls.isEmpty)
+
+/-- frame of one merge iteration: nothing but the element and the flag changes -/
+theorem addRequestMergeBody_frame (σ : Env) (x : String)
+    (h1 : x ≠ "request.FromOffset") (h2 : x ≠ "request.ToOffset") (h3 : x ≠ "overlapFound") :
+    (run Trans.addRequestMergeBody σ).env x = σ x := by
+  by_cases c1 : σ "fromOffset" ≤ σ "request.ToOffset" <;> by_cases c2 : σ "request.FromOffset" ≤ σ "toOffset" <;>
+  minigo_simp [Trans.addRequestMergeBody, c1, c2, h1, h2, h3]
+
+theorem addRequestMergeBody_sem (σ : Env) :
+    let r := run Trans.addRequestMergeBody σ
+    let q : Req := ⟨σ "request.FromOffset", σ "request.ToOffset"⟩
+    (⟨r.env "request.FromOffset", r.env "request.ToOffset"⟩ : Req) = widen (σ "fromOffset") (σ "toOffset") q ∧
+    (r.env "overlapFound" ≠ 0 ↔ (σ "overlapFound" ≠ 0 ∨ overlaps (σ "fromOffset") (σ "toOffset") q = true)) ∧
+    r.calls = [] ∧ r.ret = none ∧ r.stuck = false := by
+  by_cases h1 : σ "fromOffset" ≤ σ "request.ToOffset" <;> by_cases h2 : σ "request.FromOffset" ≤ σ "toOffset" <;>
+  minigo_simp [Trans.addRequestMergeBody, widen, overlaps, h1, h2] <;> (try constructor) <;> (try split) <;> (try omega)
+
+/-- the whole merge loop of AddRecoveryRequest is `map widen` on the partition's list, and the flag is `any overlaps`;
+no other variable changes -/
+theorem translated_addRequest_loop (l : List Req) : ∀ (σ : Env),
+    let f := σ "fromOffset"
+    let t := σ "toOffset"
+    let k := rangeReqs Trans.addRequestMergeBody l σ
+    k.1 = l.map (widen f t) ∧ k.2.2 = true ∧
+    (k.2.1 "overlapFound" ≠ 0 ↔ (σ "overlapFound" ≠ 0 ∨ l.any (overlaps f t) = true)) ∧
+    (∀ x, x ≠ "request.FromOffset" → x ≠ "request.ToOffset" → x ≠ "overlapFound" → k.2.1 x = σ x) := by
+  induction l with
+  | nil => intro σ; simp [rangeReqs]
+  | cons q rest ih =>
+    intro σ
+    let σ0 := upd (upd σ "request.FromOffset" q.fromO) "request.ToOffset" q.toO
+    have hs := addRequestMergeBody_sem σ0
+    have hf := fun x h1 h2 h3 => addRequestMergeBody_frame σ0 x h1 h2 h3
+    have e0 : ∀ x, x ≠ "request.FromOffset" → x ≠ "request.ToOffset" → σ0 x = σ x := by
+      intro x h1 h2; simp [σ0, h1, h2]
+    have e3 : σ0 "request.FromOffset" = q.fromO := by simp [σ0]
+    have e4 : σ0 "request.ToOffset" = q.toO := by simp [σ0]
+    have ih' := ih (run Trans.addRequestMergeBody σ0).env
+    simp only [] at hs ih'
+    rw [hf "fromOffset" (by decide) (by decide) (by decide), hf "toOffset" (by decide) (by decide) (by decide),
+        e0 "fromOffset" (by decide) (by decide), e0 "toOffset" (by decide) (by decide)] at ih'
+    obtain ⟨hq, hflag, hc, hr, hst⟩ := hs
+    obtain ⟨i1, i2, i3, i4⟩ := ih'
+    rw [e0 "fromOffset" (by decide) (by decide), e0 "toOffset" (by decide) (by decide), e3, e4] at hq
+    rw [e0 "fromOffset" (by decide) (by decide), e0 "toOffset" (by decide) (by decide), e3, e4,
+        e0 "overlapFound" (by decide) (by decide)] at hflag
+    have hq' : (⟨q.fromO, q.toO⟩ : Req) = q := by cases q; rfl
+    rw [hq'] at hq hflag
+    simp only [rangeReqs, List.map_cons, List.any_cons]
+    refine ⟨?_, ?_, ?_, ?_⟩
+    · rw [← hq, ← i1]
+    · simp [i2, hr, hst, hc, σ0]
+    · rw [i3, hflag]; simp [Bool.or_eq_true, or_assoc]
+    · intro x h1 h2 h3
+      rw [i4 x h1 h2 h3, hf x h1 h2 h3, e0 x h1 h2]
+
+theorem map_widen_of_not_any (f t : Int) (l : List Req) (h : ¬ l.any (overlaps f t) = true) : l.map (widen f t) = l := by
+  induction l with
+  | nil => rfl
+  | cons q rest ih =>
+    simp only [List.any_cons, Bool.or_eq_true, not_or] at h
+    simp [widen, h.1, ih h.2]
+
+/-- AddRecoveryRequest as a whole, assembled from its translated head, merge loop and tail: the partition's list afterwards,
+all calls, the returned value -/
+def addRequestRun (l : List Req) (σ : Env) : List Req × List (String × List Int) × Option (List Int) :=
+  let h := run Trans.addRequestHead σ
+  let k := rangeReqs Trans.addRequestMergeBody l h.env
+  let t := run Trans.addRequestTail k.2.1
+  -- `requests.Requests = append(requests.Requests, request)` with the request just built from (partitionID, from, to, now)
+  let l' := match t.calls with
+    | ("new RecoveryRequest {PartitionID,FromOffset,ToOffset,Created}", [_, f, t', _]) :: ("append requests.Requests", _) :: _ =>
+      k.1 ++ [⟨f, t'⟩]
+    | _ => k.1
+  (l', h.calls ++ t.calls, t.ret)
+
+/-- **AddRecoveryRequest = `Tracker.addL`**, for every list of tracked requests and every environment: the list afterwards is
+the model's, the call ends by broadcasting the partition's (possibly just created) list and returns what that returned -/
+theorem translated_addRecoveryRequest (l : List Req) (σ : Env) :
+    let reqs := if σ "rt.recoveryRequests[partitionID]" = 0 then σ "&RecoveryRequests{}" else σ "rt.recoveryRequests[partitionID]"
+    (addRequestRun l σ).1 = addL l (σ "fromOffset") (σ "toOffset") ∧
+    (addRequestRun l σ).2.1.getLast? = some ("rt.sendRecoveryRequests", [σ "partitionID", reqs]) ∧
+    (addRequestRun l σ).2.2 = some [σ "rt.sendRecoveryRequests#0"] := by
+  have hh : (run Trans.addRequestHead σ).env "overlapFound" = 0 ∧
+      (run Trans.addRequestHead σ).env "requests" =
+        (if σ "rt.recoveryRequests[partitionID]" = 0 then σ "&RecoveryRequests{}" else σ "rt.recoveryRequests[partitionID]") ∧
+      (∀ x, x ≠ "requests" → x ≠ "rt.recoveryRequests[partitionID]" → x ≠ "overlapFound" → (run Trans.addRequestHead σ).env x = σ x) := by
+    by_cases c : σ "rt.recoveryRequests[partitionID]" = 0 <;> minigo_simp [Trans.addRequestHead, c] <;>
+      (intro x h1 h2 h3; simp [h1, h2, h3])
+  obtain ⟨h0, h4, hfr⟩ := hh
+  have hl := translated_addRequest_loop l (run Trans.addRequestHead σ).env
+  simp only [] at hl
+  rw [h0, hfr "fromOffset" (by decide) (by decide) (by decide), hfr "toOffset" (by decide) (by decide) (by decide)] at hl
+  obtain ⟨l1, _, l3, lfr⟩ := hl
+  have l4 := lfr "fromOffset" (by decide) (by decide) (by decide)
+  have l5 := lfr "toOffset" (by decide) (by decide) (by decide)
+  have l6 := lfr "partitionID" (by decide) (by decide) (by decide)
+  have l7 := lfr "requests" (by decide) (by decide) (by decide)
+  have l8 := lfr "rt.sendRecoveryRequests#0" (by decide) (by decide) (by decide)
+  rw [hfr "fromOffset" (by decide) (by decide) (by decide)] at l4
+  rw [hfr "toOffset" (by decide) (by decide) (by decide)] at l5
+  rw [hfr "partitionID" (by decide) (by decide) (by decide)] at l6
+  rw [h4] at l7
+  rw [hfr "rt.sendRecoveryRequests#0" (by decide) (by decide) (by decide)] at l8
+  simp only [addRequestRun, addL]
+  generalize (rangeReqs Trans.addRequestMergeBody l (run Trans.addRequestHead σ).env) = k at *
+  by_cases hany : l.any (overlaps (σ "fromOffset") (σ "toOffset")) = true
+  · have hf : k.2.1 "overlapFound" ≠ 0 := l3.mpr (Or.inr hany)
+    minigo_simp [Trans.addRequestTail, hf, hany, l1, l6, l7, l8]
+  · have hf : k.2.1 "overlapFound" = 0 := by
+      by_cases c : k.2.1 "overlapFound" = 0
+      · exact c
+      · exact absurd (l3.mp c) (by simp [hany])
+    minigo_simp [Trans.addRequestTail, hf, hany, l1, l4, l5, l6, l7, l8, map_widen_of_not_any _ _ _ hany]
+
+/-- MarkRecoveryComplete's loop: `retained = append(retained, request)` events collect the requests that stay -/
+def rangeRetain (body : S) : List Req → Env → List Req × Env × Bool
+  | [], σ => ([], σ, true)
+  | q :: rest, σ =>
+    let r := run body (upd (upd σ "request.FromOffset" q.fromO) "request.ToOffset" q.toO)
+    let k := rangeRetain body rest r.env
+    ((if r.calls.any (fun c => c.1 == "append retained") then [q] else []) ++ k.1, k.2.1, k.2.2 && r.ret.isNone && !r.stuck)
+
+theorem markCompleteBody_sem (σ : Env) :
+    let r := run Trans.markCompleteBody σ
+    (r.calls = if σ "request.ToOffset" ≠ σ "toOffset" then [("append retained", [σ "request"])] else []) ∧
+    (r.env "removedRequest" ≠ 0 ↔ (σ "removedRequest" ≠ 0 ∨ σ "request.ToOffset" = σ "toOffset")) ∧
+    r.ret = none ∧ r.stuck = false ∧ (∀ x, x ≠ "removedRequest" → r.env x = σ x) := by
+  by_cases h : σ "request.ToOffset" = σ "toOffset" <;> minigo_simp [Trans.markCompleteBody, h] <;>
+    (intro x hx; simp [hx])
+
+/-- the whole loop: retained = the requests whose `to` differs, removed iff some request ends at `to` -/
+theorem translated_markComplete_loop (l : List Req) : ∀ (σ : Env),
+    let k := rangeRetain Trans.markCompleteBody l σ
+    k.1 = l.filter (fun r => r.toO ≠ σ "toOffset") ∧ k.2.2 = true ∧
+    (k.2.1 "removedRequest" ≠ 0 ↔ (σ "removedRequest" ≠ 0 ∨ l.any (fun r => r.toO = σ "toOffset") = true)) ∧
+    (∀ x, x ≠ "request.FromOffset" → x ≠ "request.ToOffset" → x ≠ "removedRequest" → k.2.1 x = σ x) := by
+  induction l with
+  | nil => intro σ; simp [rangeRetain]
+  | cons q rest ih =>
+    intro σ
+    let σ0 := upd (upd σ "request.FromOffset" q.fromO) "request.ToOffset" q.toO
+    have hs := markCompleteBody_sem σ0
+    have e0 : ∀ x, x ≠ "request.FromOffset" → x ≠ "request.ToOffset" → σ0 x = σ x := by
+      intro x h1 h2; simp [σ0, h1, h2]
+    have e4 : σ0 "request.ToOffset" = q.toO := by simp [σ0]
+    have ih' := ih (run Trans.markCompleteBody σ0).env
+    simp only [] at hs ih'
+    obtain ⟨hc, hflag, hr, hst, hfr⟩ := hs
+    rw [hfr "toOffset" (by decide), e0 "toOffset" (by decide) (by decide)] at ih'
+    obtain ⟨i1, i2, i3, i4⟩ := ih'
+    rw [e4, e0 "toOffset" (by decide) (by decide)] at hc
+    rw [e4, e0 "toOffset" (by decide) (by decide), e0 "removedRequest" (by decide) (by decide)] at hflag
+    simp only [rangeRetain, List.filter_cons, List.any_cons]
+    refine ⟨?_, ?_, ?_, ?_⟩
+    · rw [i1, hc]; by_cases c : q.toO = σ "toOffset" <;> simp [c]
+    · simp [i2, hr, hst, σ0]
+    · rw [i3, hflag]; simp [Bool.or_eq_true, or_assoc]
+    · intro x h1 h2 h3
+      rw [i4 x h1 h2 h3, hfr x h3, e0 x h1 h2]
+
+/-- MarkRecoveryComplete as a whole (partition present): the new list, whether it was broadcast, the returned value -/
+def markCompleteRun (l : List Req) (σ : Env) : List Req × List (String × List Int) × Option (List Int) :=
+  let h := run Trans.markCompleteHead σ
+  let k := rangeRetain Trans.markCompleteBody l h.env
+  let t := run Trans.markCompleteTail k.2.1
+  -- `requests.Requests = retained` is executed iff the tail reaches the broadcast
+  ((if t.calls.any (fun c => c.1 == "rt.sendRecoveryRequests") then k.1 else l), h.calls ++ t.calls, t.ret)
+
+/-- **MarkRecoveryComplete = `Tracker.complete`** on a partition that has an entry: the list afterwards, and a broadcast
+exactly when some request ended at `to` (otherwise the error is returned and nothing is broadcast) -/
+theorem translated_markRecoveryComplete (l : List Req) (σ : Env) (hp : σ "rt.recoveryRequests[partitionID]" ≠ 0) :
+    let hit := l.any (fun r => r.toO = σ "toOffset")
+    (markCompleteRun l σ).1 = (if hit then l.filter (fun r => r.toO ≠ σ "toOffset") else l) ∧
+    ((∃ a, ("rt.sendRecoveryRequests", a) ∈ (markCompleteRun l σ).2.1) ↔ hit = true) ∧
+    (markCompleteRun l σ).2.2 = some [if hit then σ "rt.sendRecoveryRequests#0" else σ "fmt.Errorf#0"] := by
+  have hh : (run Trans.markCompleteHead σ).env "removedRequest" = 0 ∧ (run Trans.markCompleteHead σ).ret = none ∧
+      (∀ a, ("rt.sendRecoveryRequests", a) ∉ (run Trans.markCompleteHead σ).calls) ∧
+      (∀ x, x ≠ "requests" → x ≠ "removedRequest" → x ≠ "retained" → (run Trans.markCompleteHead σ).env x = σ x) := by
+    minigo_simp [Trans.markCompleteHead, hp]
+    intro x h1 h2 h3; simp [h1, h2, h3]
+  obtain ⟨h0, _, hns, hfr⟩ := hh
+  have hl := translated_markComplete_loop l (run Trans.markCompleteHead σ).env
+  simp only [] at hl
+  rw [h0, hfr "toOffset" (by decide) (by decide) (by decide)] at hl
+  obtain ⟨l1, _, l3, lfr⟩ := hl
+  have l8 := lfr "rt.sendRecoveryRequests#0" (by decide) (by decide) (by decide)
+  have l9 := lfr "fmt.Errorf#0" (by decide) (by decide) (by decide)
+  rw [hfr "rt.sendRecoveryRequests#0" (by decide) (by decide) (by decide)] at l8
+  rw [hfr "fmt.Errorf#0" (by decide) (by decide) (by decide)] at l9
+  simp only [markCompleteRun]
+  generalize (rangeRetain Trans.markCompleteBody l (run Trans.markCompleteHead σ).env) = k at *
+  by_cases hany : l.any (fun r => r.toO = σ "toOffset") = true
+  · have hf : k.2.1 "removedRequest" ≠ 0 := l3.mpr (Or.inr (by simpa using hany))
+    minigo_simp [Trans.markCompleteTail, hf, hany, l1, l8]
+  · have hf : k.2.1 "removedRequest" = 0 := by
+      by_cases c : k.2.1 "removedRequest" = 0
+      · exact c
+      · exact absurd (l3.mp c) (by simpa using hany)
+    minigo_simp [Trans.markCompleteTail, hf, hany, l9]
+    intro a; exact hns a
+
+/-- and that is `Tracker.complete` -/
+theorem model_complete_eq (s : Store) (p t : Int) (l : List Req) (h : s.get? p = some l) :
+    complete s p t =
+      if l.any (fun r => r.toO = t) then (s.set p (l.filter (fun r => r.toO ≠ t)), [(p, l.filter (fun r => r.toO ≠ t))], true)
+      else (s, [], false) := by
+  simp [complete, h]
+
 end Translated
 
 theorem closure_unchanged : GeneratedClo.C08 = ExpectedClo.C08 := by rfl
